@@ -42,6 +42,8 @@ pub struct Net {
     nonce_ids: HashMap<(Addr, Addr), HashMap<u32, u32>>,
     /// magic number registered for each directed link (first packet sent on it)
     link_magic: HashMap<(Addr, Addr), u16>,
+    /// the last genuine input packet sent on each link: (magic, description, decoded frames, reference)
+    pub last_input: HashMap<(Addr, Addr), (u16, MsgDesc, Vec<Vec<u8>>, Vec<u8>)>,
     /// peers that no longer exist: packets to them vanish
     pub dead: Vec<Addr>,
     pub total_sent: u64,
@@ -108,13 +110,31 @@ impl Net {
             } => {
                 // decode against what this sender has sent before on this link
                 let nb = *self.frame_bytes.get(&(from, to)).unwrap_or(&1);
-                let hist = self.sent_hist.entry((from, to)).or_default();
-                let reference = hist
+                let reference = self
+                    .sent_hist
+                    .entry((from, to))
+                    .or_default()
                     .get(&(start_frame - 1))
                     .cloned()
                     .unwrap_or_else(|| vec![0u8; nb]);
                 let (vals, ok) = match codec::decode(&reference, &bytes) {
                     Ok(frames) => {
+                        self.last_input.insert(
+                            (from, to),
+                            (
+                                magic,
+                                MsgDesc::Input {
+                                    status: status.clone(),
+                                    disconnect_requested,
+                                    start_frame,
+                                    ack_frame,
+                                    bytes: bytes.clone(),
+                                },
+                                frames.clone(),
+                                reference.clone(),
+                            ),
+                        );
+                        let hist = self.sent_hist.entry((from, to)).or_default();
                         for (i, f) in frames.iter().enumerate() {
                             hist.insert(start_frame + i as i32, f.clone());
                         }
@@ -221,6 +241,89 @@ impl Net {
             abs: json!(["Forged"]),
             is_input: false,
         });
+    }
+
+    /// Build a forged packet from `from` for `to` (C08).  Returns its description for the trace.
+    /// kinds: shortStatus, negStart, badPayload, wrongSizeAll, wrongSizeFirst, wrongSizeLast,
+    ///        foreignMagic, unknownAddr
+    pub fn forge(&mut self, from: Addr, to: Addr, kind: &str, salt: u64, payload: Option<Vec<u8>>) -> Value {
+        let base = self.last_input.get(&(from, to)).cloned();
+        // without a genuine input packet on this link (handshake phase, or a spectator -> host link)
+        // only forge kinds that do not fabricate well-formed input frames
+        let kind = if base.is_none() && (kind.starts_with("wrongSize") || kind == "shortStatus") {
+            "badPayload"
+        } else {
+            kind
+        };
+        let nplayers = *self.frame_bytes.get(&(from, to)).unwrap_or(&1);
+        let (magic, desc, frames, reference) = match base {
+            Some(b) => b,
+            None => (
+                *self.link_magic.get(&(from, to)).unwrap_or(&1),
+                MsgDesc::Input {
+                    status: vec![(false, -1); 2],
+                    disconnect_requested: false,
+                    start_frame: 0,
+                    ack_frame: -1,
+                    bytes: codec::encode(&vec![0u8; nplayers], &[vec![1u8; nplayers]]),
+                },
+                vec![vec![1u8; nplayers]],
+                vec![0u8; nplayers],
+            ),
+        };
+        let MsgDesc::Input { status, disconnect_requested, start_frame, ack_frame, bytes } = desc else {
+            return json!(["none"]);
+        };
+        let mut m_magic = magic;
+        let mut m_from = from;
+        let mut st = status.clone();
+        let mut sf = start_frame;
+        let mut by = bytes.clone();
+        let fsize = frames.first().map(|f| f.len()).unwrap_or(nplayers).max(1);
+        let wrong = |k: u64| -> Vec<u8> { vec![(3 + k % 250) as u8; fsize + 1 + (k % 2) as usize] };
+        let right = |k: u64| -> Vec<u8> { vec![(5 + k % 250) as u8; fsize] };
+        match kind {
+            "shortStatus" => {
+                if salt % 2 == 0 && !st.is_empty() {
+                    st.pop();
+                } else {
+                    st.push((false, 3));
+                }
+            }
+            "negStart" => sf = -1 - (salt % 5) as i32,
+            "badPayload" => {
+                by = payload.unwrap_or_else(|| vec![0x80 | (salt % 128) as u8]);
+            }
+            "wrongSizeAll" => {
+                let fr: Vec<Vec<u8>> = (0..frames.len().max(1) as u64 + 2).map(|k| wrong(salt + k)).collect();
+                by = codec::encode(&reference, &fr);
+            }
+            "wrongSizeFirst" => {
+                // a wrong-sized frame followed by well-sized frames, all beyond what was sent so far
+                let mut fr: Vec<Vec<u8>> = frames.clone();
+                fr.push(wrong(salt));
+                fr.push(right(salt));
+                fr.push(right(salt + 1));
+                by = codec::encode(&reference, &fr);
+            }
+            "wrongSizeLast" => {
+                let mut fr: Vec<Vec<u8>> = frames.clone();
+                fr.push(wrong(salt));
+                by = codec::encode(&reference, &fr);
+            }
+            "foreignMagic" => m_magic = magic.wrapping_add(1 + (salt % 1000) as u16).max(1),
+            "unknownAddr" => m_from = 200 + (salt % 50) as Addr,
+            _ => {}
+        }
+        let d = MsgDesc::Input {
+            status: st,
+            disconnect_requested,
+            start_frame: sf,
+            ack_frame,
+            bytes: by.clone(),
+        };
+        self.inject(m_from, to, m_magic, &d);
+        json!([kind, m_from, sf, by.len()])
     }
 
     pub fn kill(&mut self, a: Addr) {
